@@ -2,11 +2,20 @@
 
 MC      MC_Dnssec17 (KeyTag vs two other formulations; Match/Cover over all 5^3 orderings x in/out of zone and
         all closed chains over 0..4; ValidAt vs plain integers and vs RFC 1982 literally; IH term/plan/evaluator;
-        base32hex; DS input; RSA/EC public-key encodings and the RRSIG signed octets on hand-computed cases),
-        MC_KeyLife17 (all behaviours <= 5 operations incl. externally provided keys, non-vacuity witnesses)
+        base32hex; DS input; RSA/EC public-key encodings and the RRSIG signed octets on hand-computed cases;
+        BIND private-key text: every layout template of both kinds of key text is well-formed and means the same key
+        fields as the plain one, with markers and with values in their place; hand-written texts with / without final
+        newline, a lost last field, a changed value, a missing format line),
+        MC_KeyLife17 (all behaviours <= 5 operations (thorough 6) incl. externally provided keys and RELAYED texts,
+        invariant LayoutIrrelevant, non-vacuity witnesses) -- the two run in parallel
 GEN     Gen_Dnssec17 modes keytag / ds / nsec3 / cover / validity and Gen_KeyLife17 -> harness `sec17 replay`
         (hash values: the spec exports the octets / the iterated-hash plan and term, the harness applies
         crypto/sha1, sha256, sha512 and compares with the real ToDS / HashName)
+        DS digest types: 1, 2, 4, the holes beside them 0, 3 (GOST), 5, the first above any table 6, 7, and 127, 128, 255.
+        TOTALITY (Dnssec17): every operation returns a value on every input of the quantifier; every call of the library
+        is made under hx.Catch and a panic is a finding with a key of its own (ds/panics:<class> from the vector,
+        keytag/panics, nsec3/hashname-panics, nsec3/cover-or-match-panics, validity/panics, keylife/<op>-panics:<alg>),
+        never a dead harness.
         NSEC3 iteration counts include 0, 1, 2, 255, 256, 65534, 65535 in the quick tier (the big ones for two names
         and salts of 0 / 8 octets).
         Key life: every behaviour x 9 generated algorithm/size combinations, two of them RSA sizes that are not a
@@ -19,9 +28,27 @@ GEN     Gen_Dnssec17 modes keytag / ds / nsec3 / cover / validity and Gen_KeyLif
         (harness/cmd/sec17/testdata: 1024, 1032, 2048, 4088, 4096 bits; exponents 3, 65537, 16777217; written by the
         harness' own BIND exporter from crypto/rsa keys, so the quick tier pays no key generation): import via
         NewPrivateKey/ReadPrivateKey, re-export and compare field by field, sign, verify, other key must fail
-TV      harness `sec17 record` (seeded random keys, names, salts, intervals, instants, key lives over all combinations)
+        TEXT LAYOUTS (KeyLife17!Relay, Gen_KeyLife17_lay.cfg): a private-key text that was kept in a store and comes
+        back in another layout of the same fields denotes the same key.  The round trips provide -> relay -> import ->
+        sign -> verify and gen -> export -> relay -> import -> sign -> verify x EVERY layout of Dnssec17!KFLayouts
+        (format line v1.2 / v1.3 / v1.3 with the three timing fields after the key fields; algorithm mnemonic present /
+        absent; empty lines none / leading / between all lines / trailing; LF after the last line present / ABSENT: 48)
+        x NewPrivateKey / ReadPrivateKey x all 21 algorithm/size combinations.  The text the real code reads is the
+        specification's template (octets, with markers where the values of the original text go).
+        READER KINDS (KeyLife17!Apis): ReadPrivateKey from a strings.Reader (an io.ByteReader), from a plain io.Reader
+        (a file: the library's own 1024-octet buffer is in front, every RSA text is longer than it), from a reader that
+        delivers one octet per Read, and from one that returns the last octets together with io.EOF; the three extra
+        kinds x the 12 layouts without empty lines (thorough: x all).  Thorough: 72 layouts
+        (several empty lines at once), + the other key must not verify, + a copy of a copy.  Finding keys of relaid
+        texts are classes of their own: keylife/relaid-import-fails|panics, relaid-reexport-differs|panics,
+        relaid-sign-..., relaid-verify-...:<alg>.
+TV      harness `sec17 record` (seeded random keys, names, salts, intervals, instants, key lives over all combinations;
+        every call under hx.Catch: a panic is an event with `panic` set, judged by the totality clause)
         -> Trace_Dnssec17 (judges, and writes the hash inputs it derives; for every signature of a key life: public-key
-        encoding = RFC 3110/6605 of the standard library's numbers, key tag, and the RFC 4034 3.1.8.1 signed octets)
+        encoding = RFC 3110/6605 of the standard library's numbers, key tag, and the RFC 4034 3.1.8.1 signed octets;
+        kl.relay events (random re-layouts by the recorder, wider than the generated universe: any number of empty lines
+        anywhere) are enabled only if old and new text have the same key fields (KFSameKey: the recorder is checked, not
+        trusted); kl.import events carry the text read and the second export of the key read: same key fields, or bad)
         -> harness `sec17 finish` (crypto/sha*, and crypto/rsa|ecdsa|ed25519 verify the real signature over those octets)
 
 Mutants (checks/mutants/C17), stage that catches each on the quick tier:
@@ -30,6 +57,13 @@ Mutants (checks/mutants/C17), stage that catches each on the quick tier:
   nsec3-iter-loop-le.diff       GEN nsec3 (nsec3/hashname); TV hashname / cover events through `finish`
   cover-ignores-zone.diff       GEN cover (nsec3/cover:outzone:inside, :outzone:equal-owner); TV cover events
   inttobytes-no-padding.diff    GEN keylife, fresh-key round trips (keylife/import-fails:ECDSA*, keylife/verify-rejects-imported-key:ECDSA*)
+  cover-label-guard-off-by-one.diff   GEN cover, root-zone records (nsec3/cover-or-match-panics): a panic is a verdict
+  klexer-empty-lines-not-skipped.diff GEN keylife layouts (keylife/relaid-import-fails:<alg>); TV kl.import after kl.relay
+  klexer-single-read-into-buffer.diff GEN keylife layouts, reader kinds readplain / read1 (keylife/relaid-import-fails:<alg>,
+                                      relaid-reexport-differs:RSA*/2048: a text cut at the buffer end still parses)
+Seeds: C17-17 (ToDS digest-type table with holes: panic for types 0 and 3) GEN ds (ds/panics:undefined-type), TV ds events;
+  C17-18 (key-file lexer drops a last line without LF) GEN keylife layouts (keylife/relaid-reexport-differs:ECDSA*,
+  relaid-reexport-panics:ED25519*, relaid-verify-rejects-imported-key:ECDSA*), TV kl.import after kl.relay
 """
 import os, json
 import vp
@@ -51,8 +85,26 @@ def safe_scratch(ctx):
     ctx._scratch, ctx._scratch_locked = locked, True
 
 
-def gen(ctx, binp, module, consts, tag):
-    r, vecs = ctx.tlc_vectors(module, workers=1, xmx="3g", timeout=3000, consts=consts)
+def timed_harness(ctx):
+    """log the wall time of every harness run (the driver library logs only TLC)"""
+    if getattr(ctx, "_timed", False):
+        return
+    import time
+    orig, t0, log0 = ctx.run_json, time.time(), vp.log
+    if os.environ.get("VERIF_TIMESTAMPS"):      # elapsed seconds in front of every log line of this run
+        vp.log = lambda *a: log0("%6.1f" % (time.time() - t0), *a)
+
+    def run_json(binp, args, **kw):
+        t = time.time()
+        try:
+            return orig(binp, args, **kw)
+        finally:
+            vp.log("harness %s %s: %.1fs" % (os.path.basename(binp), " ".join(os.path.basename(a) for a in args[:2]), time.time() - t))
+    ctx.run_json, ctx._timed = run_json, True
+
+
+def gen(ctx, binp, module, consts, tag, cfg=None):
+    r, vecs = ctx.tlc_vectors(module, cfg=cfg, workers=1, xmx="3g", timeout=3000, consts=consts)
     path = os.path.join(r.dir, "vectors.ndjson")
     if not os.path.exists(path) or not vecs:
         raise vp.Infra("%s %s produced no vectors" % (module, tag))
@@ -80,7 +132,7 @@ def absorb_keyed(ctx, tr, events, stuck_prefix):
             if k.startswith("trace/"):
                 raise vp.Infra("recorder wrote an event the trace spec cannot read: %s %s" % (k, json.dumps(events[i - 1])[:300]))
             case = {"event": events[i - 1]}
-            if events[i - 1]["ev"].startswith("kl."):      # a state-machine event needs its history: back to the reset
+            if events[i - 1]["ev"].startswith("kl.") or events[i - 1]["ev"] == "rrsig":      # a state-machine event (or the signature of one) needs its history: back to the reset
                 j = i - 1
                 while j > 0 and events[j]["ev"] != "kl.reset":
                     j -= 1
@@ -110,9 +162,10 @@ def tv(ctx, binp, n, nproc):
 
 def run(ctx):
     safe_scratch(ctx)
+    timed_harness(ctx)
     binp = ctx.build("sec17")
-    ctx.tlc("MC_Dnssec17", workers=2, xmx="3g", timeout=900)
-    ctx.tlc("MC_KeyLife17", workers=1, xmx="2g", timeout=900)
+    vp.parallel([lambda: ctx.tlc("MC_Dnssec17", workers=2, xmx="3g", timeout=900),
+                 lambda: ctx.tlc("MC_KeyLife17", workers=1, xmx="2g", timeout=900, consts=None if ctx.quick else {"MaxOps": 6, "Layouts": '{"a", "b"}'})], maxpar=2)
     iters = ITERS_Q if ctx.quick else ITERS_T
     counts = {}
     jobs = []
@@ -123,8 +176,12 @@ def run(ctx):
 
     def kljob():
         counts["keylife"] = gen(ctx, binp, "Gen_KeyLife17", {} if ctx.quick else {"MaxOps": 6}, "keylife")
-    jobs.append(kljob)
-    vp.parallel(jobs, maxpar=4)
+
+    def layjob():       # the round trips through a store x every layout of a private-key text x both import functions
+        counts["keylife-layouts"] = gen(ctx, binp, "Gen_KeyLife17", {} if ctx.quick else {"Rich": "TRUE", "Shapes": '{"given", "round", "other", "twice"}'},
+                                        "layouts", cfg="Gen_KeyLife17_lay")
+    jobs = [kljob, jobs[0], layjob] + jobs[1:5]                         # the long ones (key lives, key tags) first
+    vp.parallel(jobs, maxpar=5)
     if ctx.quick:
         tv(ctx, binp, 1800, 2)
     else:
@@ -138,12 +195,14 @@ def run(ctx):
         "key life: the DNSKEY passed to NewPrivateKey/ReadPrivateKey is the one the text belongs to (documented requirement); generated keys are cached per run and algorithm except in the elliptic-curve stress loop",
         "RSA sizes: 1024..4096 (512-bit keys are refused by the Go runtime's crypto/rsa, hence by Generate and Sign); exponents of 1, 3 and 4 octets (the library refuses longer ones, so the 3-octet length form of RFC 3110 is out of reach)",
         "the RRSIG signed octets are specified only for the key-life RRset (A records, owner not a wildcard, no names in RDATA); the general canonical form is property C10",
+        "BIND private-key text: the layouts claimed equivalent are those BIND itself writes or its reader (dst_parse.c) skips: format line v1.2 / v1.3, the v1.3 timing fields, the mnemonic after the algorithm number, empty lines, the LF after the last line; NOT claimed: CR LF line ends, trailing blanks, ';' comments (the pinned reader refuses the first two)",
+        "totality: a panic of KeyTag / ToDS / HashName / Cover / Match / ValidityPeriod / Generate / PrivateKeyString / NewPrivateKey / ReadPrivateKey / Sign / Verify on an input of the property's quantifier is a violation (the statement gives each a value for every input)",
         "names in recorded events are written in the library's presentation form (UnpackDomainName), fully qualified; one in eight ds/hashname events re-spells some letters as \\DDD",
     ]
     return ctx.finish(rule="vectors: keytag = flags x protocol x algorithm x every key over {00,ff} up to 5 (thorough: 8) octets + keys of 255/256/257/1024 octets; "
-                      "ds = 5 owners x 5 spellings (4 case variants + all-\\DDD upper case) x 7 digest types x 4 keys; nsec3 = 5 names (5 spellings each) x salts 0/1/8/255 x iterations {0,1,2,10,150,255,256,65534,65535}; "
+                      "ds = 5 owners x 5 spellings (4 case variants + all-\\DDD upper case) x 11 digest types x 4 keys; nsec3 = 5 names (5 spellings each) x salts 0/1/8/255 x iterations {0,1,2,10,150,255,256,65534,65535}; "
                       "cover = 5^3 orderings x 7 zone/name pairs x owner-label case; validity = 11 instants x 2 epochs x 12^2 offsets; keylife = every behaviour "
-                      "ending in a verification x 9 generated algorithm/size combinations (+8 thorough) and x 9 committed RSA size/exponent sets and x 3 (+2) key-tag-colliding pairs where all keys are provided, + fresh-key round trips. events: seeded random. "
+                      "ending in a verification x 9 generated algorithm/size combinations (+8 thorough) and x 9 committed RSA size/exponent sets and x 3 (+2) key-tag-colliding pairs where all keys are provided, + fresh-key round trips; keylife-layouts = 2 round trips through a store (thorough 4 shapes) x 48 (72) layouts of the private-key text x NewPrivateKey and 4 kinds of reader for ReadPrivateKey (the 3 unusual readers x 12 layouts; thorough all) x every combination. events: seeded random. "
                       "evaluations = every judged case (vectors per spelling / per algorithm, recorded events, second-stage hash and signature checks); distinct = distinct inputs, all non-trivial")
 
 
